@@ -56,7 +56,7 @@ KNOWN_SHAPES = {
 # can regenerate the table after a reviewed change of the repo)
 FINGERPRINTS = {
     "stepup/core/watcher.py:Watcher.record_change": ("c5dd50117a0aa7a3",),
-    # second shape: EXTERNAL re-hash restricted to attached nodes (proposed fix for C14-D11)
+    # second shape: EXTERNAL re-hash restricted to attached nodes (proposed fix for D15)
     "stepup/core/watcher.py:Watcher.run_once": ("54095d82d3758994", "e385562df43b7d3e"),
     # second shape: the ISDIR branch also queues the directory itself (proposed fix for C14-D10)
     "stepup/core/watcher.py:AsyncInotifyWrapper.change_loop": ("e1d6cde9fd574e23", "db0649bb364119ee"),
